@@ -407,13 +407,14 @@ func (st *c31state) checkIPv6Func(inner []byte) (accepted bool) {
 }
 
 // checkIPv6URI parses "http://[" + inner + "]" + port + "/p" (inner is raw URI text: a zone is introduced by "%25").
-func (st *c31state) checkIPv6URI(inner []byte, port string) (accepted bool) {
+// It reports whether the URI was accepted with an address part that is an IPv6 address (a legitimate acceptance).
+func (st *c31state) checkIPv6URI(inner []byte, port string) (acceptedIPv6 bool) {
 	r := st.r
 	uri := make([]byte, 0, len(inner)+len(port)+16)
 	uri = append(append(append(append(append(uri, "http://["...), inner...), ']'), port...), "/p"...)
 	var u URI
 	err := u.Parse(nil, uri)
-	accepted = err == nil
+	accepted := err == nil
 	art := func() any { return map[string]any{"kind": "uri-ipv6", "inner": vrt.Q(inner), "port": port} }
 	rawZoneless := bytes.IndexByte(inner, '%') < 0 && bytes.IndexByte(inner, ']') < 0 && bytes.IndexByte(inner, '[') < 0
 	refRaw := rawZoneless && c31RefIPv6(string(inner))
@@ -431,20 +432,21 @@ func (st *c31state) checkIPv6URI(inner []byte, port string) (accepted bool) {
 	host := string(u.Host())
 	if !strings.HasPrefix(host, "[") {
 		r.Violation("uri-ipv6-bracket-lost", fmt.Sprintf("URI.Parse(%q): Host() = %q", uri, host), art())
-		return true
+		return false
 	}
 	// the bracketed host: everything between the first '[' and the last ']' (what follows is the port)
 	li := strings.LastIndexByte(host, ']')
 	if li < 0 {
 		r.Violation("uri-ipv6-closing-bracket-lost", fmt.Sprintf("URI.Parse(%q): Host() = %q", uri, host), art())
-		return true
+		return false
 	}
 	lit := host[1:li]
 	addr := lit
 	if i := strings.IndexByte(addr, '%'); i >= 0 {
 		addr = addr[:i]
 	}
-	if !c31RefIPv6(addr) {
+	addrOK := c31RefIPv6(addr)
+	if !addrOK {
 		// Name the shape. If validateIPv6Literal itself rejects the accepted host, URI parsing did not apply it (the
 		// known shape: the %25 zone branch returns early). Otherwise the validator let it through: either the text up to
 		// the first ']' is a valid literal and more follows before the last ']' (validator and host splitting disagree
@@ -474,7 +476,7 @@ func (st *c31state) checkIPv6URI(inner []byte, port string) (accepted bool) {
 			r.Violation("uri-ipv6-host-mangled", fmt.Sprintf("URI.Parse(%q): Host() = %q, want %q", uri, host, want), art())
 		}
 	}
-	return true
+	return addrOK
 }
 
 // c31Templates enumerates structured IPv6 address texts: n groups, optional "::" at each gap, optional IPv4 tail.
